@@ -114,16 +114,8 @@ def run(ctx):
     ctx.analysed(cf.path)
     cfl = Flow(cf.body)
     csl = Slicer(cf.body)
-    upd = []
-    for s in call_sites(cf, lambda p, c: re.search(r"Iterator::for_each$", p) is not None):
-        srcs = csl.sources(s.expr)
-        if any(z.startswith("var:self.fdt_receivers") for z in srcs):
-            for z in srcs:
-                if z.startswith("closure:"):
-                    cfn = prog.funcs.get(z[len("closure:"):])
-                    if cfn and any(True for _ in call_sites(cfn, lambda p, cc: p == FR + "::update_expired_state")):
-                        upd.append(s)
-    upd += [s for s in call_sites(cf, lambda p, c: p == FR + "::update_expired_state")]
+    # `fdt_receivers.iter_mut().for_each(|r| r.1.update_expired_state(now))` or the same as an explicit loop over the map
+    upd = [s_ for bb_, how_, s_ in foreach_sites(prog, cf, r"^self\.fdt_receivers\b", lambda p: p == FR + "::update_expired_state")]
     rets_ = [s for s, ai, mut in calls_on_field(prog, RC, "fdt_receivers", funcs=[cf]) if method_name(s) in ("retain", "remove", "extract_if")]
     key = "cleanup_fdt refreshes the expiry state before retain"
     if upd and rets_ and all(any(u.bb != r.bb and cfl.dominates(u.bb, r.bb) for u in upd) for r in rets_):
